@@ -181,11 +181,30 @@ def r3_no_tmp_no_dirs(repo=None):
     else:
         r.violation(m.rel, H + ".__init__", "ignore_directories", "directory events are not ignored", line=f.lineno)
     g = m.cfg(H + ".dispatch")
-    first = [n for n in g.nodes if n.kind == "cond"]
-    first = sorted(first, key=lambda n: n.line)[:2]
-    labels = [n.label for n in first]
-    rets = [n for n in g.nodes if n.kind == "return" and n.line == (first[0].line + 1 if first else -1)]
-    if labels[:2] == ["self.ignore_directories", "event.is_directory"] and rets:
+    # the directory test is reached from the entry before any call, and its true side is a plain return
+    def own_calls(n):
+        a = n.ast
+        if a is None:
+            return False
+        e = a.test if isinstance(a, (ast.If, ast.While)) else (a.iter if isinstance(a, ast.For) else a)
+        return not isinstance(e, (ast.Try, ast.With, ast.FunctionDef)) and any(isinstance(x, ast.Call) for x in ast.walk(e))
+    calls_ = [n.id for n in g.nodes if own_calls(n)]
+    early = g.reach([g.entry.id], avoid=calls_, skip_labels=("exc",))
+    dirt = [n for n in g.nodes if n.kind == "cond" and n.ast is not None and norm(ast.unparse(n.ast)) == "event.is_directory" and n.id in early]
+    first = dirt
+    byid = {n.id: n for n in g.nodes}
+
+    def first_real(i):
+        seen = set()
+        while byid[i].kind == "join" and i not in seen:
+            seen.add(i)
+            nxt = [b for b, lab in g.succ[i] if lab != "exc"]
+            if len(nxt) != 1:
+                break
+            i = nxt[0]
+        return byid[i]
+    drops = [n for n in dirt if any(first_real(b).kind == "return" for b, lab in g.succ[n.id] if lab == "T")]
+    if drops:
         r.ok("%s:%s %s.dispatch" % (m.rel, first[0].line, H), "returns before any matching when the event is for a directory")
     else:
         r.violation(m.rel, H + ".dispatch", "directory test", "dispatch does not drop directory events first", line=m.fn(H + ".dispatch").lineno)
